@@ -348,7 +348,7 @@ def op_lit(op):
 
 
 def cfg_lit(cfg):
-    return "(mkCfg %s %s %s)" % (cb(cfg[0]), cb(cfg[1]), cb(cfg[2]))
+    return "(mkCfg %s %s %s %s)" % (cb(cfg[0]), cb(cfg[1]), cb(cfg[2]), cb(cfg[3]))
 
 
 # ------------------------------------------------------------------ running a history on the implementation
@@ -682,7 +682,7 @@ for _fid, (_s, _o, _k) in WITNESS.items():
 
 
 def detect_cfg():
-    """which of the three repairs does the tree under test contain (behavioural probes)"""
+    """which of the repairs does the tree under test contain (behavioural probes)"""
     _quiet()
     from psd_tools.api.layers import Group
     from psd_tools.constants import BlendMode
@@ -693,7 +693,11 @@ def detect_cfg():
     fix_lock = g.locks is not None and g.locks.value == 4
     g.clipping_layer = True
     fix_clip = bool(g.clipping_layer)
-    return (fix_group, fix_lock, fix_clip)
+    try:        # cc4d99c: constructors put _legacy_name(name) into the record
+        fix_ctor = Group.new("\u0416")._record.name == "?"
+    except Exception:  # noqa
+        fix_ctor = False
+    return (fix_group, fix_lock, fix_clip, fix_ctor)
 
 
 # ------------------------------------------------------------------ generators
@@ -724,7 +728,7 @@ OPACITIES_BAD = [-1, 256]
 BAD_BLEND = [int.from_bytes(b"xxxx", "big"), 0, int.from_bytes(b"Norm", "big")]
 
 
-def subjects(ck):
+def subjects(ck, cfg=(True, True, True, True)):
     out = [("file", rel, path) for rel, path in FILE_SUBJECTS]
     out += [("synth", "bare_lsct"), ("synth", "lsdk")]
     for host in ("empty", "busy"):
@@ -733,6 +737,9 @@ def subjects(ck):
     for host in ("none", "empty", "busy"):
         out.append(("new_pixel", cps("Layer"), 2, 3, 4, 3, host))
         out.append(("new_pixel", cps("px"), -2, 0, 1, 1, host))
+    if cfg[3]:      # names mac_roman cannot express at creation: saveable since cc4d99c (before: F-C19-3, property C19)
+        out.append(("new_group", cps("\u0413\u0440\u0443\u043f\u043f\u0430"), 1, "busy"))
+        out.append(("new_pixel", [0x65E5, 0x672C, 0x1F600], 1, 1, 2, 2, "empty"))
     return out
 
 
@@ -782,10 +789,10 @@ def random_edit(rng, w, h):
     return ("set", "lock", rng.choice(LOCKS + LOCKS_BAD[:1] + [0, 4]), rng.randrange(3))
 
 
-def histories(ck):
+def histories(ck, cfg=(True, True, True, True)):
     """yield (subject, ops)"""
     thorough = ck.tier == "thorough"
-    subs = subjects(ck)
+    subs = subjects(ck, cfg)
     for s in subs:
         created = s[0].startswith("new_")
         for e in single_edits(s):
@@ -840,7 +847,7 @@ def run():
     if ok:
         ck.collect_theorems("C16.v")
     cfg = detect_cfg()
-    ck.notes.append("tree under test: fix_group=%s fix_lock=%s fix_clip=%s (behavioural probes)" % cfg)
+    ck.notes.append("tree under test: fix_group=%s fix_lock=%s fix_clip=%s fix_ctor=%s (behavioural probes)" % cfg)
     listed = {f["id"] for f in ck.known}
     for flag, fid, name in ((cfg[0], "F-C16-1", "group_blend_mode"), (cfg[1], "F-C16-2", "lock_without_block"), (cfg[2], "F-C16-3", "clipping_detached")):
         # the positive theorems are about fixed_cfg: the tree must contain the repair, or the finding must be listed as open
@@ -870,16 +877,17 @@ def run():
             c = Ctx(("new_group", nm, int(of), "empty"))
             gcases.append(((cfg, nm, of, pixel_digest(c.layer)), obs(c.layer)))
     for host in ("none", "empty", "busy"):
-        for (nm, t, l, w, h) in ((cps("Layer"), 0, 0, 3, 2), (cps("p q"), -5, 7, 1, 4), (cps("x"), I32MAX - 2, I32MIN, 2, 2)):
+        for (nm, t, l, w, h) in ((cps("Layer"), 0, 0, 3, 2), (cps("p q"), -5, 7, 1, 4), (cps("x"), I32MAX - 2, I32MIN, 2, 2),
+                                 (cps("\u0421\u043b\u043e\u0439"), 1, 1, 2, 1), ([0x1F600, 0x65E5], 0, 0, 1, 1), (cps("caf\u00e9"), 0, 0, 1, 1)):
             c = Ctx(("new_pixel", nm, t, l, w, h, host))
             st = alpha(c.layer)
-            pcases.append(((st["attached"], nm, (t, l, w, h), (st["docw"], st["doch"], st["pixels"])), obs(c.layer)))
+            pcases.append(((cfg, st["attached"], nm, (t, l, w, h), (st["docw"], st["doch"], st["pixels"])), obs(c.layer)))
     ck.correspond("ctor_group", "ctor_group", IMPORTS, gcases, lambda a: "(%s, %s, %s, %s)" % (cfg_lit(a[0]), zl(a[1]), cb(a[2]), zz(a[3])))
     ck.correspond("ctor_pixel", "ctor_pixel", IMPORTS, pcases,
-                  lambda a: "(%s, %s, (%s,%s,%s,%s), (%s,%s,%s))" % ((cb(a[0]), zl(a[1])) + tuple(zz(x) for x in a[2]) + tuple(zz(x) for x in a[3])))
+                  lambda a: "(%s, %s, %s, (%s,%s,%s,%s), (%s,%s,%s))" % ((cfg_lit(a[0]), cb(a[1]), zl(a[2])) + tuple(zz(x) for x in a[3]) + tuple(zz(x) for x in a[4])))
     # ---------------- histories: implementation vs model, and the oracle
     cases, meta = [], []
-    for subject, ops in histories(ck):
+    for subject, ops in histories(ck, cfg):
         try:
             st0, ops2, out, nf = run_case(ck, subject, ops)
         except Exception as e:  # noqa  (the harness itself failing on a case is a broken obligation, not a pass)
